@@ -19,7 +19,7 @@ import random
 from .engine import Violation, SetupRejected, Unresolvable
 from .lang import Lang, canon
 from .refgraph import RefGraph, RNode, RAttacker
-from .world import BaseWorld, call, weighted
+from .world import BaseWorld, call, weighted, digest
 from . import findings, faults
 from . import world_m
 
@@ -178,6 +178,7 @@ class GraphWorld(BaseWorld):
         self.prop = cfg['prop']
         self.armed = {self.prop}
         self._tmp_armed = set()
+        self._state_digest = ''
         # the model (world M machinery, nothing armed)
         mcfg = dict(cfg['mcfg'])
         self.mw = world_m.ModelWorld(mcfg, {'spec': desc['spec'], 'source': desc.get('source'),
@@ -417,6 +418,7 @@ class GraphWorld(BaseWorld):
             self.fail(clause, f'after {where}: observing the graph raised {o.exc!r}')
         got = json.loads(canon(o.value))
         exp = json.loads(canon(slot.ref.observe()))
+        self._state_digest = digest([self._state_digest, exp])
         if got != exp:
             # attribute the difference to the clause family that owns it
             cl = clause
@@ -728,12 +730,13 @@ class GraphWorld(BaseWorld):
             raise Unresolvable()
         self._bump(op)
         self.count('op:' + kind)
+        self._state_digest = ''
         out = fn(op)
         self.count('out:' + out)
         if kind in KEY_KIND.get(self.prop, ()) and out == 'ok':
             self.key_events += 1
         self.kinds_done.add(kind)
-        return [kind, out, '']
+        return [kind, out, self._state_digest]
 
     def nontrivial(self):
         return self.state_changes >= 5 and self.key_events >= 1
